@@ -378,6 +378,9 @@ pub struct ScriptedDialerCase {
     pub one_at_a_time: bool,
     pub payload: u16,
     pub chunks: [ChunkScript; 2],
+    /// ask the listener for its protocol list (`ls`) this many times before proposing (only when one at a time)
+    #[serde(default)]
+    pub ls: u8,
 }
 
 fn scripted_dialer_strategy() -> impl Strategy<Value = ScriptedDialerCase> {
@@ -389,8 +392,9 @@ fn scripted_dialer_strategy() -> impl Strategy<Value = ScriptedDialerCase> {
         any::<bool>(),
         prop_oneof![Just(0u16), Just(1), Just(300), Just(4000)],
         [chunk_script_strategy(), chunk_script_strategy()],
+        prop_oneof![3 => Just(0u8), 2 => Just(1), 1 => Just(2)],
     )
-        .prop_map(|(dialer, listener, lockstep, one_at_a_time, payload, chunks)| ScriptedDialerCase { dialer, listener, lockstep, one_at_a_time, payload, chunks })
+        .prop_map(|(dialer, listener, lockstep, one_at_a_time, payload, chunks, ls)| ScriptedDialerCase { dialer, listener, lockstep, one_at_a_time, payload, chunks, ls })
 }
 
 fn run_scripted_dialer(c: &ScriptedDialerCase) -> CaseResult {
@@ -400,7 +404,9 @@ fn run_scripted_dialer(c: &ScriptedDialerCase) -> CaseResult {
     let cfg = PipeCfg { a_to_b: c.chunks[0].clone(), b_to_a: c.chunks[1].clone(), ..Default::default() };
     let payload = crate::engine::fill_bytes(c.payload as u64 + 7, c.payload as usize);
     let (lockstep, one) = (c.lockstep, c.one_at_a_time || c.lockstep);
+    let n_ls = if one { c.ls } else { 0 };
     let (dn, ln, pl) = (dnames.clone(), lnames.clone(), payload.clone());
+    let ln_for_ls = lnames.clone();
     let joined = block_on_paused(async move {
         let (mut a, b, _ab, _ba) = pipe(cfg);
         let dial = async move {
@@ -417,6 +423,25 @@ fn run_scripted_dialer(c: &ScriptedDialerCase) -> CaseResult {
             }
             let mut confirmed: Option<String> = None;
             if one {
+                for _ in 0..n_ls {
+                    a.write_all(&frame(b"ls\n")).await.map_err(|e| format!("{e:?}"))?;
+                    a.flush().await.map_err(|e| format!("{e:?}"))?;
+                    if !header_seen {
+                        let h = read_ms_frame(&mut a).await.ok_or("listener closed before its header")?;
+                        if h != b"/multistream/1.0.0\n" {
+                            return Err(format!("listener's first frame is not the header: {:?}", String::from_utf8_lossy(&h)));
+                        }
+                        header_seen = true;
+                    }
+                    // the answer is one frame holding the length-prefixed names; every supported name must be in it
+                    let list = read_ms_frame(&mut a).await.ok_or("listener closed instead of answering ls")?;
+                    for name in &ln_for_ls {
+                        let needle = format!("{name}\n");
+                        if !list.windows(needle.len()).any(|w| w == needle.as_bytes()) {
+                            return Err(format!("the answer to ls does not list the supported protocol {name}"));
+                        }
+                    }
+                }
                 for p in &dn {
                     a.write_all(&frame(format!("{p}\n").as_bytes())).await.map_err(|e| format!("{e:?}"))?;
                     a.flush().await.map_err(|e| format!("{e:?}"))?;
@@ -529,6 +554,7 @@ fn run_scripted_dialer(c: &ScriptedDialerCase) -> CaseResult {
     Ok(CaseOk::trivial()
         .nt(c.lockstep || d.0.is_none())
         .class_if(c.lockstep, "lockstep-dialer")
+        .class_if(n_ls > 0, "ls-before-proposing")
         .class_if(!one, "pipelined-proposals")
         .class_if(d.0.is_some(), "agreed")
         .class_if(d.0.is_none(), "all-refused"))
